@@ -85,6 +85,25 @@ theorem serialize_denotes_sax_tree_FN_partial (ft : Feat) (e : Xs.Bind.BEnv) (Γ
     serialize_denotes_sax_tree_partial e Γ scfg v cfg hcfg m hm evs es hg hc hok
   exact ⟨evs, es, toks, calls, t, hg, hc, h1, h2, h3, h4⟩
 
+/-- **serializers_denote_same_tree (fragments)**: for every universe and instance in C01's fragments
+with lexically sound names and strings, and under the explicit assumption about lxml
+(`LxmlBuildsSaxTree`), the native writer's document and the lxml writer's document denote the
+same tree (`xsi:type` values included). -/
+theorem serializers_denote_same_tree_FN_partial (lxmlRead : List Call → Option Node) (hl : LxmlBuildsSaxTree lxmlRead)
+    (ft : Feat) (e : Xs.Bind.BEnv) (Γ : Xs.Bind.Ctx)
+    (scfg : Xs.Bind.SerCfg) (c : Xs.Bind.ClassId) (v : Xs.Bind.Val)
+    (cfg : Cfg) (hcfg : plainCfg cfg = true) (m : List (Pfx × Str)) (hm : userMapOK tblNsEnv m = true)
+    (hΓ : ctxOK ft Γ = true) (hv : valOKI ft.inherit e Γ c v = true)
+    (hΓl : ctxLexOK Γ = true) (hvl : valLexOK Γ v = true) :
+    ∃ evs es toks calls t, Xs.Bind.generate e Γ scfg v = .ok evs ∧ convEvs evs = some es
+      ∧ nativeWrite tblNsEnv cfg m es = .ok toks
+      ∧ handlerRun tblNsEnv cfg false m es = (calls, none)
+      ∧ infoset toks = some t ∧ lxmlRead calls = some t := by
+  obtain ⟨evs, es, hg, hc, hok, _⟩ := generate_events_ok ft e Γ scfg c v (userDefault m) hΓ hv hΓl hvl
+  obtain ⟨toks, calls, t, h1, h2, h3, h4⟩ :=
+    serializers_denote_same_tree_partial lxmlRead hl e Γ scfg v cfg hcfg m hm evs es hg hc hok
+  exact ⟨evs, es, toks, calls, t, hg, hc, h1, h2, h3, h4⟩
+
 /-- **serialize_says_metadata (fragments)**: if moreover every object sits in a field that declares
 its class (no `xsi:type` is needed), the document the parser reads is exactly the tree the
 independent reader `eventsTree` assigns to the generated events: element and attribute names with
